@@ -115,6 +115,8 @@ type ccfg struct {
 	name      string
 	cidrs     []string
 	emptyRing bool // a keyring without keys at creation (keys installed later)
+	noDel     bool // no user Delegate configured
+	tcpTimeout time.Duration // 0 = default
 }
 
 type cnode struct {
@@ -147,7 +149,12 @@ func newCnode(c ccfg) (*cnode, error) {
 	conf.ProbeTimeout = time.Minute
 	conf.GossipInterval = 0
 	conf.PushPullInterval = 0
-	conf.Delegate = del
+	if !c.noDel {
+		conf.Delegate = del
+	}
+	if c.tcpTimeout > 0 {
+		conf.TCPTimeout = c.tcpTimeout
+	}
 	conf.Events = ev
 	conf.RetransmitMult = 1
 	conf.Label = c.label
